@@ -20,15 +20,19 @@ ExtraSeqs == IF Variant = "full" THEN {<<>>, <<"aaa-before">>, <<"zzz-after">>, 
              ELSE {<<>>, <<"aaa-before", "zzz-after">>, <<"embeds-prefix">>, <<"cand-before">>, <<"cand-after">>}
 Shapes == {[shape |-> "file", cand |-> "exec"], [shape |-> "file", cand |-> "nonexec"], [shape |-> "file", cand |-> "misnamed"], [shape |-> "dir", cand |-> "exec"],
            [shape |-> "dir", cand |-> "nonexec"], [shape |-> "dir", cand |-> "two"], [shape |-> "dir", cand |-> "none"]}
-AllSources == {[ver |-> v, meta |-> m, shape |-> sh.shape, cand |-> sh.cand, extras |-> ex, subdir |-> sd, overwrite |-> ow] :
+AllSources == {[ver |-> v, meta |-> m, shape |-> sh.shape, cand |-> sh.cand, extras |-> ex, subdir |-> sd, overwrite |-> ow, loc |-> "elsewhere"] :
               v \in VerIdx, m \in (IF Variant = "full" THEN {"ok", "invalid", "misnamed"} ELSE {"ok", "misnamed"}), sh \in Shapes, ex \in ExtraSeqs,
               sd \in (IF Variant = "full" THEN BOOLEAN ELSE {TRUE}), ow \in BOOLEAN}
 (* a directory whose only name-format file is such a data file would install THAT as a plugin of another name: left out;
    a single-file source has no extras that matter *)
 Sources == {s \in AllSources : s.cand \in {"none", "misnamed"} => Range(s.extras) \cap CandLike = {}}
 
+(* the installed plugin offered as its own source (its directory, or its executable) *)
+SelfSources(c) == IF c.present THEN {[ver |-> c.ver, meta |-> "ok", shape |-> sh, cand |-> "exec", extras |-> <<>>, subdir |-> FALSE, overwrite |-> ow, loc |-> "installed"] :
+                                      sh \in {"file", "dir"}, ow \in BOOLEAN}
+                  ELSE {}
 Init == cur = NoPlugin
-Install   == \E src \in Sources : cur' = ApplyInstall(Versions, cur, src)
+Install   == \E src \in Sources \cup SelfSources(cur) : cur' = ApplyInstall(Versions, cur, src)
 Uninstall == cur' = NoPlugin
 Next == Install \/ Uninstall
 Spec == Init /\ [][Next]_cur
@@ -40,7 +44,7 @@ ASSUME PrecOrder == /\ \A a, b \in 1..Len(Versions) : ~(Higher(Versions[a], Vers
                     /\ Higher(Versions[4], Versions[3]) /\ Higher(Versions[3], Versions[2]) /\ Higher(Versions[2], Versions[1])
 
 (* replace <=> absent, overwrite, or strictly higher; a refusal changes nothing; success = exactly the source's files *)
-Inv_C20 == \A src \in Sources :
+Inv_C20 == \A src \in Sources \cup SelfSources(cur) :
   LET nxt == ApplyInstall(Versions, cur, src) IN
   /\ (nxt # cur => Usable(src) /\ (~cur.present \/ src.overwrite \/ Higher(Versions[src.ver], Versions[cur.ver])))
   /\ (InstallOK(Versions, cur, src) => nxt.present /\ nxt.ver = src.ver /\ nxt.files = FilesOf(src))
@@ -51,7 +55,7 @@ Inv_SameFromFileOrDir == \A src \in Sources : (src.shape = "dir" /\ src.cand = "
   /\ f.present = d.present /\ f.ver = d.ver
   /\ (InstallOK(Versions, cur, src) => "executable" \in f.files /\ "executable" \in d.files /\ InstallOK(Versions, cur, [src EXCEPT !.shape = "file"]))
 
-Inv_Emit == Emit => \A src \in Sources : PrintT("CASE " \o ToJson([in |-> [cur |-> [present |-> cur.present, ver |-> cur.ver, files |-> SetToSeq(cur.files)], op |-> "Install", src |-> src], nt |-> cur.present]))
+Inv_Emit == Emit => \A src \in Sources \cup SelfSources(cur) : PrintT("CASE " \o ToJson([in |-> [cur |-> [present |-> cur.present, ver |-> cur.ver, files |-> SetToSeq(cur.files)], op |-> "Install", src |-> src], nt |-> cur.present]))
 Inv_EmitU == Emit => PrintT("CASE " \o ToJson([in |-> [cur |-> [present |-> cur.present, ver |-> cur.ver, files |-> SetToSeq(cur.files)], op |-> "Uninstall",
-                                                      src |-> [ver |-> 0, meta |-> "ok", shape |-> "file", cand |-> "exec", extras |-> <<>>, subdir |-> FALSE, overwrite |-> FALSE]], nt |-> TRUE]))
+                                                      src |-> [ver |-> 0, meta |-> "ok", shape |-> "file", cand |-> "exec", extras |-> <<>>, subdir |-> FALSE, overwrite |-> FALSE, loc |-> "elsewhere"]], nt |-> TRUE]))
 =============================================================================
